@@ -247,7 +247,20 @@ def _store_array(
             raise ValueError(
                 f"Source array shape {source.shape} does not match target shape {tuple(target_shape)}"
             )
-        if not isinstance(source._zarray, LazyZarrArray):
+        # An uncomputed source can be written straight into the target instead of
+        # its intermediate array, but only once (a second target has to be copied
+        # from the first), and only if the target has the source's chunk grid, since
+        # later readers of the source read it through the target's chunks.
+        try:
+            same_chunk_grid = tuple(target.chunks) == tuple(source.chunksize)
+        except NotImplementedError:
+            same_chunk_grid = False  # rectilinear chunk grids don't support .chunks
+        retarget = (
+            isinstance(source._zarray, LazyZarrArray)
+            and not getattr(source, "_retargeted", False)
+            and same_chunk_grid
+        )
+        if not retarget:
             ind = tuple(range(source.ndim))
             return blockwise(
                 identity,
@@ -266,6 +279,7 @@ def _store_array(
 
             # replace source target array with new target
             source._zarray = target
+            source._retargeted = True
 
             # replace plan target array with new target
             for n, d in source._plan.dag.nodes(data=True):
